@@ -28,6 +28,7 @@ import contextlib
 import errno
 import heapq
 import logging
+import math
 import os
 import time
 import typing
@@ -261,7 +262,13 @@ class ZMQEventLoop(EventLoop):
             if self._did_something and (not self._alarms or (self._alarms and timeout > 0)):
                 state = "idle"
                 timeout = 0
-            ready = dict(self._poller.poll(timeout * 1000))
+            if self._poller.sockets:
+                # poll() truncates to whole milliseconds: round up, an alarm must not fire before it is due
+                ready = dict(self._poller.poll(math.ceil(timeout * 1000)))
+            else:
+                # an empty poller returns at once instead of waiting
+                time.sleep(timeout)
+                ready = {}
         else:
             ready = dict(self._poller.poll())
 
